@@ -158,6 +158,47 @@ pub fn run_c05_wire(ctx: &Ctx) {
         }
     };
     let prop = C05Wire { rig: &rig };
+    // well-formed but unusual queries first: every way a query is answered without going
+    // upstream (refused by type, refused for lack of RD, forged) x sizes from tiny to larger than
+    // any answer to it (EDNS padding, a large unknown option, extra records), over UDP and TCP.
+    // Handlers compute with the sizes of query and reply; nothing here is malformed.
+    for via in [0u8, 1u8] {
+        let mut inputs = vec![];
+        for (qtype, rd) in [(255u16, true), (1u16, false), (255u16, false), (252u16, true), (1u16, true)] {
+            for pad in [0usize, 1, 7, 8, 31, 64, 100, 128, 255, 256, 468, 1000, 1400, 3000] {
+                for kind in 0..3u8 {
+                    let name = vec![unique_label(), b"sized".to_vec(), b"test".to_vec()];
+                    let edns = match kind {
+                        0 => Some(dns::Edns { udp_size: 1232, ext_rcode: 0, version: 0, do_bit: false, options: vec![(12, vec![0u8; pad])] }),
+                        1 => Some(dns::Edns { udp_size: 4096, ext_rcode: 0, version: 0, do_bit: true, options: vec![(65001, vec![0xabu8; pad]), (3, vec![])] }),
+                        _ => None,
+                    };
+                    let mut q = dns::query(0x7100, &name, qtype, 1, rd, edns);
+                    if kind == 2 {
+                        // size by extra records instead of options
+                        for k in 0..(pad / 16).min(120) {
+                            q.additional.push(dns::Rr { name: vec![format!("p{}", k).into_bytes()], rtype: 1, class: 1, ttl: 1, rdata: dns::RData::Raw(vec![192, 0, 2, 1]) });
+                        }
+                    }
+                    inputs.push(HexBytes(dns::encode(&q, dns::Compress::Off)));
+                }
+            }
+        }
+        for chunk in inputs.chunks(42) {
+            let case = HostileBatch { via, inputs: chunk.to_vec() };
+            let mut out = exec_one(&prop, &case);
+            out.class("well-formed-queries-of-every-size");
+            ctx.record(prop.sub(), &case, &out);
+            if let Some(f) = out.fail {
+                if ctx.is_known(&f.sig) {
+                    ctx.known_hit(&f.sig);
+                } else {
+                    ctx.violation(prop.sub(), &f, &case);
+                    return;
+                }
+            }
+        }
+    }
     run_wire(ctx, &prop, hostile_batch_strategy(), ctx.tier.pick(16, 1500), 1);
 }
 
@@ -763,6 +804,18 @@ impl WireProp for C16Wire {
                             f.extend_from_slice(h.finalize().into_bytes().as_slice());
                             (src, dst, f, None)
                         }
+                        9..=11 => {
+                            // the server's own cookie cut short (the client cookie plus the first
+                            // 1, 8 or 16 octets of the server part): not what was issued
+                            let keep = match v {
+                                9 => 1,
+                                10 => 8,
+                                _ => 16,
+                            };
+                            let mut f = full.clone();
+                            f.truncate(8 + keep);
+                            (src, dst, f, None)
+                        }
                         _ => match self.start_server() {
                             Ok((s2, p2)) => (src, SocketAddr::new(IpAddr::V6(v6_local(4)), p2), full.clone(), Some((s2, p2))),
                             Err(e) => {
@@ -785,10 +838,55 @@ impl WireProp for C16Wire {
                     } else {
                         out.class("invalid-cookie-not-exempt");
                         if answered * 2 > n {
-                            let what = ["", "presented from another source address", "presented to another server address", "with one bit flipped", "with an invented server part", "issued before a restart", "computed with the public algorithm under the all-zero key", "computed with the public algorithm under the all-ones key", "computed with the public algorithm under the key 01..08"][(*v as usize).min(8)];
+                            let what = ["", "presented from another source address", "presented to another server address", "with one bit flipped", "with an invented server part", "issued before a restart", "computed with the public algorithm under the all-zero key", "computed with the public algorithm under the all-ones key", "computed with the public algorithm under the key 01..08", "cut to one octet of server part", "cut to 8 octets of server part", "cut to 16 octets of server part"][(*v as usize).min(11)];
                             out.fail(
                                 format!("C16:invalid-cookie-exempt:{}", v),
                                 format!("a cookie {} exempted the client: {} of {} refused queries answered", what, answered, n),
+                            );
+                            return out;
+                        }
+                    }
+                }
+                // (4) guessing: a source that has used up its allowance tries every one-octet
+                // server part; whatever gets a REFUSED back is replayed in a burst
+                {
+                    let src = IpAddr::V6(v6_local(7));
+                    let dst = SocketAddr::new(IpAddr::V6(v6_local(4)), port);
+                    let client_cookie: Vec<u8> = vec![0xc0, 0x0c, 9, 9, 9, 9, 9, 9];
+                    let _ = Self::blast(src, dst, 300, None);
+                    let sock = match std::net::UdpSocket::bind((src, 0)) {
+                        Ok(s) => s,
+                        Err(e) => {
+                            out.fail("rig-error", e.to_string());
+                            return out;
+                        }
+                    };
+                    sock.set_read_timeout(Some(Duration::from_millis(400))).unwrap();
+                    for b in 0..=255u8 {
+                        let mut ck = client_cookie.clone();
+                        ck.push(b);
+                        let _ = sock.send_to(&refused_query(0x4000 + b as u16, Some(ck)), dst);
+                        if b % 64 == 63 {
+                            std::thread::sleep(Duration::from_millis(2));
+                        }
+                    }
+                    let mut accepted: Vec<u8> = vec![];
+                    let mut buf = vec![0u8; 4096];
+                    while let Ok((l, from)) = sock.recv_from(&mut buf) {
+                        if l >= 2 && is_refused(&Got { bytes: buf[..l].to_vec(), from, after: Duration::ZERO }) {
+                            let id = ((buf[0] as u16) << 8) | buf[1] as u16;
+                            accepted.push((id & 0xff) as u8);
+                        }
+                    }
+                    out.class("one-octet-server-parts-tried");
+                    for b in accepted.iter().take(3) {
+                        let mut ck = client_cookie.clone();
+                        ck.push(*b);
+                        let answered = Self::blast(src, dst, 40, Some(ck));
+                        if answered * 2 > 40 {
+                            out.fail(
+                                "C16:invalid-cookie-exempt:guessed-short-server-part",
+                                format!("one of 256 guesses for a one-octet server part ({:#04x}) exempts the source: {} of 40 refused queries answered", b, answered),
                             );
                             return out;
                         }
@@ -814,12 +912,12 @@ pub fn run_c16_wire(ctx: &Ctx) {
     let strat = (
         proptest::collection::vec(any::<u8>(), 1..=4),
         prop_oneof![Just(200u16), Just(600), 200u16..2000],
-        proptest::collection::vec(0u8..9, 1..=4),
+        proptest::collection::vec(0u8..12, 1..=4),
     )
         .prop_map(|(quiet, blast, mut cookie_variants)| {
             // the whole matrix in every case (the subset only orders it): each variant is one
             // short burst, and a case is a fresh server
-            cookie_variants.extend(0u8..9);
+            cookie_variants.extend(0u8..12);
             let mut seen = std::collections::HashSet::new();
             cookie_variants.retain(|v| seen.insert(*v));
             LimiterCase {
